@@ -108,7 +108,7 @@ var c13Classes = []string{"all0", "all1", "alt", "alt2", "random"}
 
 func c13Cases(env vk.Env) []vk.Case {
 	var cs []vk.Case
-	for i := 0; i < env.Pick(6, 60); i++ {
+	for i := 0; i < env.Pick(6, 240); i++ {
 		i := i
 		cs = append(cs, vk.Case{ID: fmt.Sprintf("layers/%d", i), Run: func(t *vk.T) { c13Layers(t, i) }})
 		cs = append(cs, vk.Case{ID: fmt.Sprintf("multiply/%d", i), Run: func(t *vk.T) { c13Multiply(t, i, env.Pick(30, 50)) }})
